@@ -221,6 +221,59 @@ def r3_interpreters(rule, root=None):
                 rule.bad("ref|%s|%s|missing" % (enum, v), "%s::eval has no arm for %s" % (enum, v), A.where(fn, ms[0]))
 
 
+def r6_parent_counting(rule, root=None):
+    """SsaTape::new emits a node only after all of its parents: pass 1 counts one parent per child edge,
+    pass 2 removes one per child edge when the parent is emitted, emission is gated on the count being zero"""
+    fn = A.find_fn(SSA, "new", self_ty="SsaTape", root=root)
+    t = A.unparse(fn["body"]).replace(" ", "")
+    need = [
+        ("pass 1 counts every child edge once", "forchildinop.iter_children(){(*parent_count.entry(child).or_default()+=1);todo.push(child);}"),
+        ("pass 1 visits each node once", "if!seen.insert(node){continue;}"),
+        ("pass 2 emits a node only when no unemitted parent remains, and only once", "if((*parent_count.get(&node).unwrap_or(&0)>0)||!seen.insert(node)){continue;}"),
+        ("pass 2 releases one count per child edge of the emitted node", "forchildinop.iter_children(){todo.push(child);(*parent_count.get_mut(&child).unwrap()-=1);}"),
+        ("constants become immediates and are not emitted", "letSlot::Reg(i)=mapping[&node]else{continue;};"),
+        ("every non-constant node gets a fresh SSA slot", "leti=slot_count;(slot_count+=1);mapping.insert(node,Slot::Reg(i))"),
+        ("constants map to their own value", "Op::Const(c)=>mapping.insert(node,Slot::Immediate(c.0))"),
+        ("inputs read the index their variable was given", "Op::Input(v)=>{letarg=vars[v];SsaOp::Input(i,arg.try_into().unwrap())}"),
+        ("output k reads root k", "for(i,r)inroots.iter().enumerate(){leti=(iasu32);matchmapping[r]{Slot::Reg(out_reg)=>tape.push(SsaOp::Output(out_reg,i))"),
+        ("a constant root is materialised in a fresh slot that the output reads", "Slot::Immediate(imm)=>{leto=slot_count;(slot_count+=1);tape.push(SsaOp::Output(o,i));tape.push(SsaOp::CopyImm(o,imm));}"),
+        ("both passes start from all roots", "letmuttodo=roots.to_vec();"),
+        ("the tape advertises one output per root", "output_count:roots.len()"),
+    ]
+    for what, frag in need:
+        if frag in t:
+            rule.ok("SsaTape::new: %s" % what, file=SSA, line=fn["ln"])
+        else:
+            rule.bad("ssa|%s" % what[:30], "SsaTape::new: %s (`%s` not found)" % (what, frag[:70]), A.where(fn))
+    if t.count("letmuttodo=roots.to_vec();") == 2:
+        rule.ok("SsaTape::new: two passes over the graph")
+    else:
+        rule.bad("ssa|passes", "SsaTape::new must walk the graph twice from the roots", A.where(fn))
+
+
+def r5b_lru(rule, root=None):
+    LRU = "fidget-core/src/compiler/lru.rs"
+    want = {
+        "remove": "{letnode=self.data[(iasusize)];self.data[(node.prevasusize)].next=self.data[(iasusize)].next;self.data[(node.nextasusize)].prev=self.data[(iasusize)].prev;}",
+        "insert_before": "{letprev=self.data[(nextasusize)].prev;self.data[(prevasusize)].next=i;self.data[(nextasusize)].prev=i;self.data[(iasusize)]=LruNode{next:next,prev:prev};}",
+        "poke": "{letprev_newest=self.head;if(prev_newest==i){return;}elseif(self.data[(prev_newestasusize)].prev!=i){self.remove(i);self.insert_before(i,self.head);}self.head=i;}",
+        "pop": "{letout=self.data[(self.headasusize)].prev;self.head=out;out}",
+    }
+    for name, w in want.items():
+        fn = A.find_fn(LRU, name, self_ty="Lru", root=root)
+        got = A.unparse(fn["body"]).replace(" ", "")
+        if got == w:
+            rule.ok("Lru::%s has its summarised link updates" % name, file=LRU, line=fn["ln"])
+        else:
+            rule.bad("lru|%s" % name, "Lru::%s changed: the doubly-linked recency list must %s" % (name, {"remove": "bridge prev.next and next.prev over node i", "insert_before": "link i between `next` and its old predecessor", "poke": "make i the head (moving it unless it already is the oldest, which only rotates)", "pop": "return the oldest (head.prev) and make it the head"}[name]), A.where(fn))
+    fn = A.find_fn(LRU, "new", self_ty="Lru", root=root)
+    t = A.unparse(fn["body"]).replace(" ", "")
+    if "out.data[i].next=(((i+1)%N)asu8);out.data[i].prev=(i.checked_sub(1).unwrap_or((N-1))asu8);" in t and "head:0" in t:
+        rule.ok("Lru::new links all N nodes into one ring")
+    else:
+        rule.bad("lru|new", "Lru::new must link node i to (i+1) mod N and (i-1) mod N", A.where(fn))
+
+
 def run(ctx):
     r = ctx.rule("R1", "SsaTape::new lowers each graph opcode to its namesake SsaOp form", 12 * 3 + 18 + 4 + 1)
     ctx.guarded(r, r1_ssa_lowering)
@@ -230,5 +283,9 @@ def run(ctx):
     ctx.guarded(r, AP.r4_protocol)
     r = ctx.rule("R5", "allocator helpers have their summarised effects", 18)
     ctx.guarded(r, AP.r5_helpers)
+    r = ctx.rule("R5b", "the LRU ring keeps its link updates", 5)
+    ctx.guarded(r, r5b_lru)
+    r = ctx.rule("R6", "graph flattening: parent counting, slot assignment, outputs", 13)
+    ctx.guarded(r, r6_parent_counting)
     r = ctx.rule("R3", "every interpreter arm and the reference eval compute the arm's opcode", 4 * 54 + 30)
     ctx.guarded(r, r3_interpreters)
